@@ -340,6 +340,7 @@ def run(p: Program, rep: Report, tier: str) -> None:
         paths, col, it = run_paths(p, call, rcls)
         rep.cfg_paths += len(paths)
         saw404 = saw_hit = False
+        seen_subst: set = set()
         for pa in paths:
             if pa.exit != "return":
                 continue
@@ -348,6 +349,19 @@ def run(p: Program, rep: Report, tier: str) -> None:
                 rep.violation("R8.4", construct(call, text="no search"), where(call), "Router.__call__ has a normal path that does not consult search()")
                 continue
             sv = ("call", searches[0].a, searches[0].b, searches[0].c, searches[0].tag)
+            # "for every request path ... answers 404 when none does": the path searched is the request's path as it is - an empty
+            # path (a router mounted at exactly the requested prefix) replaced by a non-empty default is dispatched to another route
+            sarg = searches[0].b[0] if searches[0].b else None
+            subst = None
+            if sarg is not None and sarg[0] == "or" and any(t[0] == "const" and isinstance(t[1], str) and t[1] != "" for t in sarg[1][1:]):
+                subst = next(t[1] for t in sarg[1][1:] if t[0] == "const" and isinstance(t[1], str) and t[1] != "")
+            elif sarg is not None and sarg[0] == "call" and sarg[1][0] == "attr" and sarg[1][2] == "get" and len(sarg[2]) == 2 and sarg[2][1][0] == "const" and isinstance(sarg[2][1][1], str) and sarg[2][1][1] != "":
+                subst = None  # a default for a MISSING key only: an empty path stays empty
+            if subst is not None and ("subst", side) not in seen_subst:
+                seen_subst.add(("subst", side))
+                rep.violation("R8.4", construct(call, text=f"search({show(sarg)[:50]})"), where(call),
+                              f"{side} Router searches `{show(sarg)[:60]}`: an EMPTY request path is looked up as {subst!r}, so it is dispatched to the route for {subst!r} instead of being "
+                              "answered 404 (and a route that does match the empty path loses to it); the other interface still answers 404", positive=True)
             is_none = (("cmp", "Is", sv, NONE), True) in pa.facts
             invoked = [e for e in pa.events if e.kind == "call" and e.b and len(e.b) >= 2 and show(e.b[0]) in ("environ", "scope")]
             if is_none:
